@@ -32,13 +32,13 @@ type discharge struct {
 }
 
 var dischargeTable = []discharge{
-	{fn: "parser.mk*", via: []string{"grammar:G4"}, reason: "every transformer was evaluated on every shape its grammar rule produces; an arity panic or failed assertion would have been reported"},
 	{fn: "(parser.tokenWrapper).Wrap", via: []string{"grammar:G4", "txn:X6"}, reason: "Wrap evaluated for every token kind the grammar accepts; tokens are token.Type values handed out by the transactional lexer"},
 	{fn: "parser.Parse", via: []string{"grammar:G4"}, reason: "program yields only node.Type results"},
 	{fn: "parser.forLoop", via: []string{"grammar:G4"}, reason: "both lists are results of mkList"},
 	{fn: "parser.acceptTerm$1", via: []string{"txn:X6"}, reason: "the only Token implementation handed to the parser is token.Type (TLexer.Token)"},
 	{fn: "parser.acceptToken$1", via: []string{"txn:X6"}, reason: "see acceptTerm"},
 	{fn: "parser.varName$1", via: []string{"txn:X6"}, reason: "see acceptTerm"},
+	{fn: "parser.*", via: []string{"grammar:G4"}, reason: "every transformer (with the helpers it calls) was evaluated on every shape its grammar rule produces; an arity panic or failed assertion would have been reported"},
 	{fn: "combinator.Choose$1", via: []string{"grammar:G2"}, reason: "every Choose of the grammar ends in an alternative that cannot fail"},
 	{fn: "combinator.OneOf", via: []string{"grammar:G5"}, reason: "every constructor call of the grammar was evaluated with its actual arguments"},
 	{fn: "combinator.Seq", via: []string{"grammar:G5"}, reason: "every constructor call of the grammar was evaluated with its actual arguments"},
@@ -54,6 +54,8 @@ var dischargeTable = []discharge{
 	{fn: "(types/value.Type).Mod", via: []string{"valtab:A2"}, reason: "divisor excluded from zero on the path"},
 	{fn: "types/value.builtinArith*", via: []string{"valtab:A1", "valtab:A2"}, reason: "called with the opcodes the VM passes only; divisor guarded"},
 	{fn: "types/value.builtinRelational*", via: []string{"valtab:A1"}, reason: "called with the opcodes the VM passes only"},
+	{fn: "(types/value.Type).*", via: []string{"valtab:A1", "valtab:A2", "valtab:A7"}, reason: "every operator and renderer method is evaluated on every kind (pair); a reached abort is reported"},
+	{fn: "types/value.*", via: []string{"valtab:A1", "valtab:A2", "valtab:A7"}, reason: "helpers of the operator methods are interpreted with them"},
 	{fn: "(*vm.Type).Run", msg: "unknown global", via: []string{"bcai:B10"}, reason: "global operands address string constants"},
 	{fn: "(*vm.Type).Run", msg: "unexpected dst", via: []string{"bcai:B1"}, reason: "destination kinds emitted are accepted"},
 	{fn: "(*vm.Type).Run", msg: "cannot convert", via: []string{"bcai:B10", "bcai:B2"}, reason: "ARR's array operand is an array constant or the result of a previous ARR"},
@@ -63,7 +65,7 @@ var dischargeTable = []discharge{
 	{fn: "(*vm.Type).Run", kinds: "os.Exit", doc: true, reason: "documented behaviour of the exit builtin"},
 	{fn: "(*vm.Type).Run", kinds: "assert", msg: "vm.context", via: []string{"vmshape:V8"}, reason: "the free list only ever receives *context values (deleteContext)"},
 	{fn: "(*vm.Type).fetch", via: []string{"bcai:B1", "bcai:B10"}, reason: "operand kinds emitted are fetchable; global operands address strings"},
-	{fn: "cmd/calc.main*", doc: true, reason: "profile file errors: environment failure, not a program the parser accepts"},
+	{fn: "cmd/calc.*", doc: true, reason: "start-up code of the command (flags, profile files): environment failure, not a program the parser accepts"},
 	{fn: "types/node.NewRLReader", doc: true, reason: "terminal initialisation failure: environment"},
 	{fn: "types/node.NewFReader", doc: true, reason: "unreadable script file: environment"},
 }
